@@ -128,6 +128,9 @@ type world struct {
 	// leak bookkeeping for classification: hash id -> description of how it became an orphan
 	orphanSeen map[int]string
 	gapped     map[int]bool // senders whose pending list already has a reported gap
+	lastRepl   []*mtx       // recent replacement submissions (their same-nonce predecessor is in replOld)
+	replOld    map[int]*mtx
+	unaff      map[int]bool
 	gapAfter   map[int]bool // senders with a virtual-nonce mismatch inherited from a reported gap
 	overAQ     map[int]bool // senders whose queue overshoot (requeue by removeTx) is already reported
 	overGQ     bool
@@ -507,6 +510,15 @@ func (w *world) directOracle(before, after view, s snap, opDesc string) {
 		if len(l) == 0 {
 			w.c.Violate("pending-empty-list/"+w.cfgName, "an empty pending list is reported", w.replay(opDesc))
 		}
+		// affordability of every pending transaction against the CURRENT head state, independent of ordering
+		for _, t := range l {
+			if (t.cost().Cmp(head.st[a].bal) > 0 || t.gas > head.gas) && !w.unaff[t.id] {
+				w.unaff[t.id] = true // reported once per transaction and history
+				w.c.Violate(fmt.Sprintf("pending-not-affordable/%s/%s", w.cfgName, opDesc),
+					fmt.Sprintf("sender %d pending tx %d (nonce %d) costs %s gas %d, but balance is %s and the block gas limit %d (after %s)", a, t.id, t.nonce, t.cost(), t.gas, head.st[a].bal, head.gas, opDesc), w.replay(opDesc))
+				break
+			}
+		}
 		contiguous := true
 		for i, t := range l {
 			if t.nonce != want+uint64(i) {
@@ -520,11 +532,6 @@ func (w *world) directOracle(before, after view, s snap, opDesc string) {
 					w.c.Violate(sig, fmt.Sprintf("sender %d pending nonces are not the run starting at the state nonce %d: position %d has nonce %d (after %s)", a, want, i, t.nonce, opDesc), w.replay(opDesc))
 				}
 				w.gapped[a] = true
-				break
-			}
-			if t.cost().Cmp(head.st[a].bal) > 0 || t.gas > head.gas {
-				w.c.Violate(fmt.Sprintf("pending-not-affordable/%s", w.cfgName),
-					fmt.Sprintf("sender %d pending tx %d costs %s gas %d, balance %s block gas limit %d", a, t.id, t.cost(), t.gas, head.st[a].bal, head.gas), w.replay(opDesc))
 				break
 			}
 			if t.from != a {
@@ -814,6 +821,29 @@ func (w *world) genTx(v view) (*mtx, string) {
 	value := big.NewInt(int64(r.Intn(1000)))
 	var data []byte
 	badsig := false
+	var replaced *mtx
+	if strings.HasPrefix(class, "replace/") {
+		for _, o := range existing {
+			if o.nonce == nonce {
+				replaced = o
+			}
+		}
+		// a replacement may also cost more / use more gas than what it replaces (the list's cached ceilings must follow)
+		switch r.Intn(4) {
+		case 0:
+			gas = replaced.gas + uint64(500+r.Intn(2000))
+			class += "+more-gas"
+		case 1:
+			value = new(big.Int).Add(replaced.value, big.NewInt(int64(1000000+r.Intn(20000000))))
+			class += "+more-value"
+		case 2:
+			if replaced.gas > 21500 {
+				gas = replaced.gas - 500
+			}
+			value = big.NewInt(0)
+			class += "+cheaper"
+		}
+	}
 	switch k := r.Intn(100); {
 	case k < 12: // cost around the balance
 		gp := new(big.Int).Mul(price, new(big.Int).SetUint64(gas))
@@ -844,18 +874,30 @@ func (w *world) genTx(v view) (*mtx, string) {
 		gas = 21000 + 68*2 + 4 - uint64(r.Intn(2))
 		class += "+data"
 	}
-	return w.mkTx(from, nonce, price, gas, value, data, badsig), class
+	t := w.mkTx(from, nonce, price, gas, value, data, badsig)
+	if replaced != nil && replaced.id != t.id {
+		w.replOld[t.id] = replaced
+		w.lastRepl = append(w.lastRepl, t)
+		if len(w.lastRepl) > 6 {
+			w.lastRepl = w.lastRepl[1:]
+		}
+	}
+	return t, class
 }
 
 // runHistory builds a pool and applies a generated history, comparing with the model after every op.
 func (w *world) runHistory(pc poolCfg) {
 	r := w.r
 	c := w.c
+	savedModel := w.m
+	defer func() { w.m = savedModel }()
 	w.cfgName = pc.name
 	w.history = nil
 	w.orphanSeen = map[int]string{}
 	w.gapped = map[int]bool{}
 	w.overAQ = map[int]bool{}
+	w.unaff = map[int]bool{}
+	w.lastRepl, w.replOld = nil, map[int]*mtx{}
 	w.gapAfter = map[int]bool{}
 	w.overGQ = false
 	w.txs = map[common.Hash]*mtx{}
@@ -1023,18 +1065,25 @@ func (w *world) runHistory(pc poolCfg) {
 				relevant[a] = true
 			}
 		}
-		ans, ok := w.askOp(kind, args, obs, post, relevant)
-		c.Correspond("TxPool."+map[string]string{"addr": "AddRemote~add_remote", "addl": "AddLocal~add_local", "gasprice": "SetGasPrice~set_gas_price", "reset": "reset~reset_heads"}[kind],
-			strings.Join(w.history, " ; "), obs+" ## "+post.stale, ans)
-		w.directOracle(before, after, post, desc)
-		if !ok {
-			os.WriteFile(filepath.Join(c.OutDir, fmt.Sprintf("disagreement_%d.txt", c.Res.NDisagreements)), []byte(strings.Join(w.mcmds, "\n")+"\n# observed: "+obs+" ## "+post.stale+"\n"), 0o644)
-			return // the model state no longer follows the implementation
-		}
-		if a := w.m.Ask("commit"); a != "ok" {
-			if want != "panic" {
-				c.Fatal("commit: %s", a)
+		if w.m != nil {
+			ans, ok := w.askOp(kind, args, obs, post, relevant)
+			c.Correspond("TxPool."+map[string]string{"addr": "AddRemote~add_remote", "addl": "AddLocal~add_local", "gasprice": "SetGasPrice~set_gas_price", "reset": "reset~reset_heads"}[kind],
+				strings.Join(w.history, " ; "), obs+" ## "+post.stale, ans)
+			if !ok {
+				os.WriteFile(filepath.Join(c.OutDir, fmt.Sprintf("disagreement_%d.txt", c.Res.NDisagreements)), []byte(strings.Join(w.mcmds, "\n")+"\n# observed: "+obs+" ## "+post.stale+"\n"), 0o644)
+				// the model no longer follows the implementation: the rest of the history runs on the implementation
+				// alone, so that the direct oracle can still turn the divergence into a concrete failing input
+				w.m = nil
+				c.Count("history/continued-without-model")
+			} else if a := w.m.Ask("commit"); a != "ok" {
+				if want != "panic" {
+					c.Fatal("commit: %s", a)
+				}
+				w.m = nil
 			}
+		}
+		w.directOracle(before, after, post, desc)
+		if want == "panic" {
 			return
 		}
 		before = after
@@ -1066,6 +1115,11 @@ func (w *world) planRandom(before view) sop {
 		return sop{kind: "gasprice", class: "set-gas-price", price: p}
 	default: // new head
 		old := w.chain.head
+		if k < 76 {
+			if nb, cl := w.squeezeOn(old, before); nb != nil {
+				return sop{kind: "head", class: "head/" + cl, nb: nb}
+			}
+		}
 		if k < 88 || old.block.NumberU64() == 0 { // advance: mine a prefix of pending for some senders
 			return sop{kind: "head", class: "head/advance", nb: w.mineOn(old, before, nil)}
 		}
@@ -1109,6 +1163,86 @@ func (w *world) planRandom(before view) sop {
 		}
 		return plan
 	}
+}
+
+// squeezeOn builds a child of parent whose state puts a pending transaction just beyond reach: the sender's
+// balance lands in [cost of what it replaced, its cost) (or just below its cost), or the block gas limit lands in
+// [old gas, its gas).  The balance goes down consistently: the pending predecessors are mined and the last of them
+// is outbid by a transaction of the same nonce that the pool never saw and that spends the difference.
+func (w *world) squeezeOn(parent *blockInfo, v view) (*blockInfo, string) {
+	r := w.r
+	// candidates: recent replacements that are pending, else any pending transaction
+	var cands []*mtx
+	for _, t := range w.lastRepl {
+		for _, x := range v.pending[t.from] {
+			if x.id == t.id {
+				cands = append(cands, t)
+			}
+		}
+	}
+	cl := "squeeze-replaced"
+	if len(cands) == 0 || r.Chance(30) {
+		cl = "squeeze-any"
+		cands = nil
+		for _, l := range v.pending {
+			cands = append(cands, l...)
+		}
+	}
+	if len(cands) == 0 {
+		return nil, ""
+	}
+	sort.Slice(cands, func(i, j int) bool { return cands[i].id < cands[j].id })
+	t := cands[r.Intn(len(cands))]
+	old := w.replOld[t.id]
+	st := copySt(parent.st)
+	gas := parent.gas
+	if gas < 1000000 {
+		gas = 1000000
+	}
+	// gas-limit squeeze
+	if (old != nil && old.gas < t.gas && r.Chance(50)) || r.Chance(15) {
+		lo := t.gas - 1
+		if old != nil && old.gas < t.gas {
+			lo = old.gas + uint64(r.Intn(int(t.gas-old.gas)))
+		}
+		return w.newBlock(parent, parent.block.NumberU64()+1, nil, st, lo), cl + "/gas-limit"
+	}
+	// balance squeeze: needs a pending predecessor whose nonce the spending transaction can take
+	l := v.pending[t.from]
+	idx := -1
+	for i, x := range l {
+		if x.id == t.id {
+			idx = i
+		}
+	}
+	if idx < 1 || l[0].nonce != st[t.from].nonce {
+		return nil, ""
+	}
+	var txs []*mtx
+	for _, x := range l[:idx-1] {
+		if x.cost().Cmp(st[x.from].bal) > 0 {
+			return nil, ""
+		}
+		st[x.from].nonce++
+		st[x.from].bal.Sub(st[x.from].bal, x.cost())
+		txs = append(txs, x)
+	}
+	target := new(big.Int).Sub(t.cost(), big.NewInt(int64(1+r.Intn(3))))
+	if old != nil && old.cost().Cmp(t.cost()) < 0 {
+		span := new(big.Int).Sub(t.cost(), old.cost())
+		target = new(big.Int).Add(old.cost(), new(big.Int).Mod(new(big.Int).SetUint64(r.Uint64()), span))
+	}
+	price := w.uniquePrice(int64(5000 + r.Intn(1000)))
+	fee := new(big.Int).Mul(price, big.NewInt(21000))
+	val := new(big.Int).Sub(new(big.Int).Sub(st[t.from].bal, fee), target)
+	if val.Sign() < 0 || target.Sign() < 0 {
+		return nil, ""
+	}
+	e := w.mkTx(t.from, st[t.from].nonce, price, 21000, val, nil, false)
+	st[t.from].nonce++
+	st[t.from].bal.Sub(st[t.from].bal, e.cost())
+	txs = append(txs, e)
+	return w.newBlock(parent, parent.block.NumberU64()+1, txs, st, gas), cl + "/balance"
 }
 
 // mineOn builds a child of parent.  With a view it takes prefixes of the pool's pending lists
@@ -1231,6 +1365,50 @@ func directedGap(w *world) []sop {
 	}
 }
 
+// directedCaps: an accepted replacement that costs more (value) or uses more gas than what it replaces, then a head
+// whose balance lies in [old cost, new cost) / whose gas limit lies in [old gas, new gas): txList.Filter must not
+// short-circuit on stale ceilings.  Then the dual (cheaper replacement, ceilings stale-high: harmless).
+func directedCaps(kind string) func(w *world) []sop {
+	return func(w *world) []sop {
+		b0 := w.chain.head
+		t0 := w.mkTx(0, 0, big.NewInt(10), 21000, big.NewInt(100), nil, false)
+		t1 := w.mkTx(0, 1, big.NewInt(100), 21000, big.NewInt(1000000), nil, false) // cost 3,100,000
+		var t1r *mtx
+		switch kind {
+		case "cost":
+			t1r = w.mkTx(0, 1, big.NewInt(111), 21000, big.NewInt(30000000), nil, false) // cost 32,331,000
+		case "gas":
+			t1r = w.mkTx(0, 1, big.NewInt(110), 30000, big.NewInt(1000000), nil, false)
+		default: // dual
+			t1r = w.mkTx(0, 1, big.NewInt(110), 21000, big.NewInt(0), nil, false)
+		}
+		st := copySt(b0.st)
+		gas := uint64(1000000)
+		var txs []*mtx
+		switch kind {
+		case "cost", "dual": // A outbids its own nonce 0 with a transaction that leaves 10,000,000: in [old cost, new cost)
+			price := big.NewInt(7000)
+			fee := new(big.Int).Mul(price, big.NewInt(21000))
+			val := new(big.Int).Sub(new(big.Int).Sub(st[0].bal, fee), big.NewInt(10000000))
+			if kind == "dual" { // leave less than the replaced (dropped) transaction cost, more than the replacement costs
+				val = new(big.Int).Sub(new(big.Int).Sub(st[0].bal, fee), big.NewInt(2500000))
+			}
+			e := w.mkTx(0, 0, price, 21000, val, nil, false)
+			st[0].nonce = 1
+			st[0].bal.Sub(st[0].bal, e.cost())
+			txs = []*mtx{e}
+		case "gas":
+			gas = 25000
+		}
+		b1 := w.newBlock(b0, 1, txs, st, gas)
+		return []sop{
+			{kind: "add", class: "directed/caps-" + kind, t: t0}, {kind: "add", class: "directed/caps-" + kind, t: t1},
+			{kind: "add", class: "directed/caps-" + kind + "-replace", t: t1r},
+			{kind: "head", class: "directed/caps-" + kind + "-squeeze", nb: b1},
+		}
+	}
+}
+
 // ---------------------------------------------------------------- concurrent variant (direct oracle only)
 
 func (w *world) runConcurrent(pc poolCfg) {
@@ -1244,6 +1422,8 @@ func (w *world) runConcurrent(pc poolCfg) {
 	w.orphanSeen = map[int]string{}
 	w.gapped = map[int]bool{}
 	w.overAQ = map[int]bool{}
+	w.unaff = map[int]bool{}
+	w.lastRepl, w.replOld = nil, map[int]*mtx{}
 	w.gapAfter = map[int]bool{}
 	w.overGQ = false
 	w.txs = map[common.Hash]*mtx{}
@@ -1344,6 +1524,10 @@ func main() {
 		st: []acct{{0, big.NewInt(100000000)}, {0, big.NewInt(100000000)}}, script: directedLeak})
 	w.runHistory(poolCfg{name: "default", as: 16, gs: 4096, aq: 64, gq: 1024, bump: 10, nsenders: 2, gp: 1,
 		st: []acct{{0, big.NewInt(1000000)}, {0, big.NewInt(100000000)}}, script: directedGap})
+	for _, k := range []string{"cost", "gas", "dual"} {
+		w.runHistory(poolCfg{name: "default", as: 16, gs: 4096, aq: 64, gq: 1024, bump: 10, nsenders: 2, gp: 1,
+			st: []acct{{0, big.NewInt(100000000)}, {0, big.NewInt(100000000)}}, script: directedCaps(k)})
+	}
 	nh := c.Scale(100, 6000)
 	for i := 0; i < nh; i++ {
 		var pc poolCfg
